@@ -1,11 +1,11 @@
-(* C03: one synchronous replication step keeps replicas equal, bucket by bucket (non-singleton patterns). *)
+(* C03: one synchronous replication step keeps replicas equal, bucket by bucket - singleton patterns included
+   (a singleton pattern needs two blocks: a one-block pattern never has an active run). *)
 From Bobo Require Import Base.Prelude Base.History Model.Pattern Model.Run Model.Decider Model.Cluster Model.Converge Model.ConvergeC.
 From Bobo Require Import Proofs.RunProofs Proofs.DeciderLemmas Proofs.DeciderProofs Proofs.StepProofs.
 From Bobo Require Import Proofs.RemoteProofs Proofs.ConvergeProofs Proofs.JoinProofs Proofs.LocalProofs Proofs.ClusterProofs.
 
 Section Sync.
   Variable E : Type.
-  Variable owner : Z -> Z * Z.
   Notation run := (run E).
   Notation runtab := (runtab E).
   Notation rserial := (rserial E).
@@ -49,6 +49,54 @@ Section Sync.
       + apply filter_ext. intro x. reflexivity.
   Qed.
 
+  (* ---------- completed / halted records, any pattern ---------- *)
+  Definition known (cfg : config) (rc : rserial) : Prop :=
+    exists p, get_pattern cfg (s_ph rc) (s_pat rc) = Some p.
+
+  (* the singleton bucket a record addresses holds no run under another identifier *)
+  Definition sagree (cfg : config) (rt : runtab) (rc : rserial) : Prop :=
+    forall p, get_pattern cfg (s_ph rc) (s_pat rc) = Some p -> p_single p = true ->
+              forall r, In r (bucket (s_ph rc) (p_name p) rt) -> r_id r = s_id rc.
+
+  Lemma sagree_remove cfg ph pat id (rt : runtab) rc : sagree cfg rt rc -> sagree cfg (rt_remove ph pat id rt) rc.
+  Proof.
+    intros H p Hg Hs r Hin. apply (H p Hg Hs). rewrite bucket_remove in Hin.
+    destruct (same ph pat (s_ph rc) (p_name p)); [|exact Hin]. apply filter_In in Hin. tauto.
+  Qed.
+
+  Lemma apply_finished_sync cfg w recs : forall (rt : runtab) cc ch,
+    Inv E cfg rt -> Forall (known cfg) recs -> (forall rc, In rc recs -> sagree cfg rt rc) ->
+    exists cc' ch' out, apply_finished cfg w recs rt cc ch = (removes E recs rt, cc', ch', out).
+  Proof.
+    induction recs as [|rc rest IH]; intros rt cc ch Hinv Hk Hag; [simpl; eauto|].
+    inversion Hk as [|? ? [p Hg] Hk']; subst.
+    pose proof (get_pattern_name E _ _ _ _ Hg) as Hname.
+    assert (Hnext : forall cc0 ch0, exists cc' ch' out,
+              apply_finished cfg w rest (rt_remove (s_ph rc) (s_pat rc) (s_id rc) rt) cc0 ch0 =
+              (removes E (rc :: rest) rt, cc', ch', out)).
+    { intros cc0 ch0. apply IH; [now apply Inv_remove|exact Hk'|].
+      intros rc0 H0. apply sagree_remove. apply Hag. now right. }
+    cbn [apply_finished]. rewrite Hg.
+    destruct (p_single p) eqn:Es.
+    - destruct (bucket (s_ph rc) (p_name p) rt) as [|rl l] eqn:Eb.
+      + destruct (Hnext cc ch) as [cc' [ch' [out Heq]]]. rewrite Heq. eauto.
+      + assert (Hin : In rl (bucket (s_ph rc) (p_name p) rt)) by (rewrite Eb; now left).
+        pose proof (Hag rc (or_introl eq_refl) p Hg Es rl Hin) as Hid.
+        destruct Hinv as [_ [Hkeys _]]. destruct (Hkeys _ _ _ Hin) as [Hph Hpat].
+        rewrite Hph, Hpat, Hid, Hname, Z.eqb_refl.
+        destruct (Hnext cc ch) as [cc' [ch' [out Heq]]]. rewrite Heq. eauto.
+    - destruct (Hnext cc ch) as [cc' [ch' [out Heq]]]. rewrite Heq. eauto.
+  Qed.
+
+  Lemma single_hd_run_at cfg (rt : runtab) ph pat p id :
+    Inv E cfg rt -> get_pattern cfg ph pat = Some p -> p_single p = true ->
+    run_at ph pat id rt <> None -> hd_error (bucket ph pat rt) = run_at ph pat id rt.
+  Proof.
+    intros [_ [_ [_ Hs]]] Hg Hsg Hex. specialize (Hs ph pat p Hg Hsg). unfold run_at in *.
+    destruct (bucket ph pat rt) as [|r [|r2 l]]; simpl in *; [congruence| |lia].
+    destruct (Z.eqb (r_id r) id); [reflexivity|congruence].
+  Qed.
+
   (* ---------- updated records that all target existing runs, ids pairwise distinct ---------- *)
   Definition upd_by (recs : list rserial) (ph pat : Z) (r : run) : run :=
     match find (rmatch ph pat (r_id r)) recs with
@@ -61,20 +109,24 @@ Section Sync.
 
   Lemma apply_updated_existing cfg recs : forall (rt : runtab),
     Inv E cfg rt ->
-    Forall (known_ns E cfg) recs -> NoDup (ids_of recs) ->
+    Forall (known cfg) recs -> NoDup (ids_of recs) ->
     (forall rc, In rc recs -> run_at (s_ph rc) (s_pat rc) (s_id rc) rt <> None) ->
     (forall ph pat, bucket ph pat (fst (apply_updated cfg true recs rt)) = map (upd_by recs ph pat) (bucket ph pat rt))
     /\ Inv E cfg (fst (apply_updated cfg true recs rt)).
   Proof.
     induction recs as [|rc rest IH]; intros rt Hinv Hk Hnd Hex.
     - split; [|exact Hinv]. intros ph pat. simpl. unfold upd_by. simpl. now rewrite map_id.
-    - inversion Hk as [|? ? [p [Hg Hs]] Hk']; subst. inversion Hnd as [|? ? Hnotin Hnd']; subst.
+    - inversion Hk as [|? ? [p Hg] Hk']; subst. inversion Hnd as [|? ? Hnotin Hnd']; subst.
       pose proof (get_pattern_name E _ _ _ _ Hg) as Hname.
+      assert (Hlook : (if p_single p then hd_error (bucket (s_ph rc) (p_name p) rt)
+                       else run_at (s_ph rc) (s_pat rc) (s_id rc) rt) = run_at (s_ph rc) (s_pat rc) (s_id rc) rt).
+      { destruct (p_single p) eqn:Es; [|reflexivity]. rewrite Hname.
+        apply (single_hd_run_at cfg rt _ _ p); auto. apply Hex. now left. }
       destruct (run_at (s_ph rc) (s_pat rc) (s_id rc) rt) as [rl|] eqn:Erl; [|exfalso; eapply Hex; [now left|exact Erl]].
       set (rl' := if ahead true rc rl then set_block rl (s_idx rc) (s_hist rc) else rl).
       assert (Hstep : fst (apply_updated cfg true (rc :: rest) rt) =
                       fst (apply_updated cfg true rest (rt_replace (s_ph rc) (p_name p) rl' rt))).
-      { simpl. rewrite Hg, Hs, Erl. fold rl'. destruct (apply_updated cfg true rest _). reflexivity. }
+      { cbn [apply_updated]. rewrite Hg, Erl, Hlook. fold rl'. destruct (apply_updated cfg true rest _). reflexivity. }
       assert (Hidl : r_id rl = s_id rc) by (unfold run_at in Erl; now apply (find_id E) in Erl).
       assert (Hid' : r_id rl' = r_id rl) by (unfold rl'; destruct (ahead true rc rl); reflexivity).
       assert (Hin : In rl (bucket (s_ph rc) (p_name p) rt)).
@@ -129,7 +181,10 @@ Section Sync.
   Variable cfg : config.
   Variable gen : nat -> nat -> Z.
   Hypothesis cfgwf : cfg_wf E cfg.
-  Hypothesis nonsingle : forall ph pat p, get_pattern cfg ph pat = Some p -> p_single p = false.
+  (* a one-block pattern completes with its first event and never has an active run: "singleton" means something
+     only from two blocks on *)
+  Hypothesis single2 : forall ph pat p, get_pattern cfg ph pat = Some p -> p_single p = true ->
+                                        (2 <= length (p_blocks p))%nat.
 
   Lemma start_runs_sync i j (e : E) pps :
     (forall ph p, In (ph, p) pps -> In (ph, p) (cfg_pats cfg)) ->
@@ -148,7 +203,7 @@ Section Sync.
       + destruct (start_runs (icfg cfg gen i) e rest rti (S n)) as [[[[rt1 n1] c1] u1]|] eqn:Es; cbn in H; [|discriminate].
         injection H as <- _ _ <-. eapply IH; eauto.
       + pose proof (cfg_pats_get E cfg ph p cfgwf (Hsub _ _ (or_introl eq_refl))) as Hg.
-        pose proof (nonsingle _ _ _ Hg) as Hns. rewrite Hns in H. simpl in H.
+        destruct (negb (p_single p) || Nat.eqb (length (bucket ph (p_name p) rti)) 0) eqn:Egate; [|eapply IH; eauto].
         destruct (rt_add ph (p_name p) nr rti) as [rti1|] eqn:Ea; cbn in H; [|discriminate].
         destruct (start_runs (icfg cfg gen i) e rest rti1 (S n)) as [[[[rt2 n2] c2] u2]|] eqn:Es; cbn in H; [|discriminate].
         injection H as <- _ _ <-.
@@ -156,11 +211,19 @@ Section Sync.
         { unfold rt_add in Ea. destruct (run_at ph (p_name p) (r_id nr) rti); [discriminate|reflexivity]. }
         assert (Hnone_j : run_at ph (p_name p) (r_id nr) rtj = None) by (now rewrite (beq_run_at _ _ _ _ _ Hb)).
         destruct (rt_add_ok E ph (p_name p) nr rtj Hnone_j) as [rtj1 Haj].
+        assert (Hgate : p_single p = true -> bucket ph (p_name p) rtj = []).
+        { intro Hsg. rewrite Hsg in Egate. simpl in Egate. apply Nat.eqb_eq in Egate. rewrite Hb.
+          destruct (bucket ph (p_name p) rti); [reflexivity|discriminate]. }
+        assert (Hlook : (if p_single p then hd_error (bucket ph (p_name p) rtj) else run_at ph (p_name p) (r_id nr) rtj) = None).
+        { destruct (p_single p) eqn:Esg; [|exact Hnone_j]. now rewrite Hgate. }
         assert (Hstep : fst (apply_updated (icfg cfg gen j) true (map ser (nr :: u2)) rtj) =
                         fst (apply_updated (icfg cfg gen j) true (map ser u2) rtj1)).
         { simpl map. cbn [apply_updated]. change (get_pattern (icfg cfg gen j) (s_ph (ser nr)) (s_pat (ser nr))) with (get_pattern cfg ph (p_name p)).
-          rewrite Hg, Hns. change (run_at (s_ph (ser nr)) (s_pat (ser nr)) (s_id (ser nr)) rtj) with (run_at ph (p_name p) (r_id nr) rtj).
-          rewrite Hnone_j.
+          rewrite Hg.
+          change (if p_single p then hd_error (bucket (s_ph (ser nr)) (p_name p) rtj)
+                  else run_at (s_ph (ser nr)) (s_pat (ser nr)) (s_id (ser nr)) rtj)
+            with (if p_single p then hd_error (bucket ph (p_name p) rtj) else run_at ph (p_name p) (r_id nr) rtj).
+          rewrite Hlook.
           change (remote_run (s_id (ser nr)) (s_ph (ser nr)) p (s_idx (ser nr)) (s_hist (ser nr))) with nr.
           change (rt_add (s_ph (ser nr)) (s_pat (ser nr)) nr rtj) with (rt_add ph (p_name p) nr rtj). rewrite Haj.
           destruct (apply_updated (icfg cfg gen j) true (map ser u2) rtj1). reflexivity. }
@@ -168,7 +231,7 @@ Section Sync.
         * intros ph' pat'. rewrite (bucket_add E _ _ _ _ _ ph' pat' Haj), (bucket_add E _ _ _ _ _ ph' pat' Ea).
           destruct (same ph (p_name p) ph' pat'); [now rewrite Hb|apply Hb].
         * eapply Inv_add; eauto. intros q Hq Hsq. change (get_pattern (icfg cfg gen j) ph (p_name p)) with (get_pattern cfg ph (p_name p)) in Hq.
-          rewrite Hg in Hq. injection Hq as <-. congruence.
+          rewrite Hg in Hq. injection Hq as <-. now apply Hgate.
   Qed.
 
   (* ---------- identifiers of the runs created by a step ---------- *)
@@ -192,6 +255,30 @@ Section Sync.
           injection H as _ _ <- <-. apply Forall_app. specialize (IH _ _ _ _ _ _ Es). apply Forall_app in IH.
           destruct IH as [I1 I2]. split; [now apply Hmono|].
           constructor; [exists n; split; [lia|reflexivity]|now apply Hmono].
+        * apply Hmono. eauto.
+  Qed.
+
+  (* runs that complete with their first event belong to one-block patterns *)
+  Lemma start_runs_pc (c : config) (e : E) pps : forall (rt : runtab) n rt' n' pc pu,
+    start_runs c e pps rt n = Ok (rt', n', pc, pu) ->
+    Forall (fun x => (length (p_blocks (r_pat x)) <= 1)%nat /\ In (r_ph x, r_pat x) pps) pc.
+  Proof.
+    induction pps as [|[ph p] rest IH]; intros rt n rt' n' pc pu H.
+    - simpl in H. injection H as _ _ <- _. constructor.
+    - cbn [start_runs] in H.
+      assert (Hmono : forall l, Forall (fun x : run => (length (p_blocks (r_pat x)) <= 1)%nat /\ In (r_ph x, r_pat x) rest) l ->
+                                Forall (fun x : run => (length (p_blocks (r_pat x)) <= 1)%nat /\ In (r_ph x, r_pat x) ((ph, p) :: rest)) l).
+      { intros l Hl. eapply Forall_impl; [|exact Hl]. intros x [H1 H2]. split; [exact H1|now right]. }
+      destruct (first_match p e); [|apply Hmono; eauto].
+      destruct (r_halted _ && is_complete _) eqn:Ehc.
+      + destruct (start_runs c e rest rt (S n)) as [[[[rt1 n1] c1] u1]|] eqn:Es; cbn in H; [|discriminate].
+        injection H as _ _ <- _. constructor; [|apply Hmono; eauto].
+        split; [|now left]. apply andb_true_iff in Ehc. destruct Ehc as [Eh _]. simpl in Eh. simpl.
+        now apply Nat.leb_le in Eh.
+      + destruct (negb (p_single p) || _).
+        * destruct (rt_add ph (p_name p) _ rt) as [rt1|] eqn:Ea; cbn in H; [|discriminate].
+          destruct (start_runs c e rest rt1 (S n)) as [[[[rt2 n2] c2] u2]|] eqn:Es; cbn in H; [|discriminate].
+          injection H as _ _ <- _. apply Hmono. eauto.
         * apply Hmono. eauto.
   Qed.
 
@@ -251,8 +338,8 @@ Section Sync.
     Inv E (icfg cfg gen i) (d_runs si) -> Inv E (icfg cfg gen j) (d_runs sj) ->
     NoDup (map (@r_id E) (rt_all (d_runs si))) ->
     (forall k r, (d_next si <= k)%nat -> In r (rt_all (d_runs si)) -> r_id r <> gen i k) ->
-    Forall (known_ns E (icfg cfg gen j)) (n_comp n) -> Forall (known_ns E (icfg cfg gen j)) (n_halt n) ->
-    Forall (known_ns E (icfg cfg gen j)) (n_upd n) ->
+    Forall (known (icfg cfg gen j)) (n_comp n) -> Forall (known (icfg cfg gen j)) (n_halt n) ->
+    Forall (known (icfg cfg gen j)) (n_upd n) ->
     filter_msg (icfg cfg gen j) sj n = n ->
     local_step (icfg cfg gen i) si e = Ok (si', n) ->
     beq (d_runs (fst (remote_apply (icfg cfg gen j) sj n))) (d_runs si').
@@ -267,18 +354,49 @@ Section Sync.
     set (hlt := map ser (sel KHalt ks)) in *.
     set (recs1 := map ser (sel KUpd ks)).
     assert (Hupd : map ser (sel KUpd ks ++ pu) = recs1 ++ map ser pu) by (unfold recs1; apply map_app).
+    pose proof Hinvi as [Hwfi [Hkeysi [Hnodupi Hsinglei]]].
+    (* the receiver's singleton buckets hold no run under another identifier than the one a record names *)
+    assert (Hag_run : forall k0 rc, In rc (map ser (sel k0 ks)) -> sagree (icfg cfg gen j) (d_runs sj) rc).
+    { intros k0 rc Hrc p Hg Hsg r Hr. apply in_ser_sel in Hrc. destruct Hrc as [r0 [r' [Hr0 [Hp [_ ->]]]]].
+      destruct (outcome_id E r0 e r' true (process_outcome E r0 e r' true Hp)) as [H1 [H2 H3]].
+      simpl in Hg, Hr. simpl. rewrite Hb in Hr.
+      pose proof (get_pattern_name E _ _ _ _ Hg) as Hname.
+      destruct (in_all_bucket E _ _ Hwfi Hr0) as [ph0 [pat0 Hin0]]. destruct (Hkeysi _ _ _ Hin0) as [Hph0 Hpat0].
+      assert (Hin0' : In r0 (bucket (r_ph r') (p_name p) (d_runs si))).
+      { rewrite Hname, H2, H3, Hph0, Hpat0. exact Hin0. }
+      assert (Hlen : (length (bucket (r_ph r') (p_name p) (d_runs si)) <= 1)%nat).
+      { apply (Hsinglei _ _ p); [|exact Hsg]. rewrite Hname. exact Hg. }
+      destruct (bucket (r_ph r') (p_name p) (d_runs si)) as [|x [|y l]]; simpl in *; [contradiction| |lia].
+      destruct Hr as [<-|[]]. destruct Hin0' as [->|[]]. congruence. }
+    assert (Hag_comp : forall rc, In rc comp -> sagree (icfg cfg gen j) (d_runs sj) rc).
+    { intros rc Hrc. unfold comp in Hrc. rewrite map_app in Hrc. apply in_app_iff in Hrc. destruct Hrc as [Hrc|Hrc].
+      - now apply (Hag_run KComp).
+      - intros p Hg Hsg r Hr. exfalso. apply in_map_iff in Hrc. destruct Hrc as [x [<- Hx]].
+        pose proof (start_runs_pc _ _ _ _ _ _ _ _ _ Es) as Hpc. rewrite Forall_forall in Hpc.
+        destruct (Hpc x Hx) as [Hlen Hinp]. simpl in Hg.
+        pose proof (cfg_pats_get E cfg _ _ cfgwf Hinp) as Hg2.
+        change (get_pattern (icfg cfg gen j) (r_ph x) (p_name (r_pat x))) with (get_pattern cfg (r_ph x) (p_name (r_pat x))) in Hg.
+        rewrite Hg2 in Hg. injection Hg as <-. pose proof (single2 _ _ _ Hg2 Hsg). lia. }
     (* the remote side *)
     unfold remote_apply, remote_apply_gen. rewrite Hnf. simpl n_comp. simpl n_halt. simpl n_upd.
     simpl in Kc, Kh, Ku.
-    rewrite (apply_finished_ns E (icfg cfg gen j) true comp Kc).
-    rewrite (apply_finished_ns E (icfg cfg gen j) false hlt Kh).
+    destruct (apply_finished_sync (icfg cfg gen j) true comp (d_runs sj)
+                (cache_push (icfg cfg gen j) (d_cc sj) comp) (cache_push (icfg cfg gen j) (d_ch sj) hlt) Hinvj Kc Hag_comp)
+      as [cc1 [ch1 [out1 Hf1]]]. rewrite Hf1.
+    assert (Hinv1 : Inv E (icfg cfg gen j) (removes E comp (d_runs sj))).
+    { clear -Hinvj. unfold removes. generalize (d_runs sj) Hinvj. induction comp as [|rc rest IH]; intros rt Hi; simpl; [exact Hi|].
+      apply IH. now apply Inv_remove. }
+    assert (Hag_hlt : forall rc, In rc hlt -> sagree (icfg cfg gen j) (removes E comp (d_runs sj)) rc).
+    { intros rc Hrc p Hg Hsg r Hr. apply (Hag_run KHalt rc Hrc p Hg Hsg r).
+      rewrite bucket_removes in Hr. apply filter_In in Hr. tauto. }
+    destruct (apply_finished_sync (icfg cfg gen j) false hlt (removes E comp (d_runs sj)) cc1 ch1 Hinv1 Kh Hag_hlt)
+      as [cc2 [ch2 [out2 Hf2]]]. rewrite Hf2.
     destruct (apply_updated (icfg cfg gen j) true (map ser (sel KUpd ks ++ pu)) (removes E hlt (removes E comp (d_runs sj))))
       as [rt3 upd'] eqn:E3. simpl.
     assert (Hrt3 : rt3 = fst (apply_updated (icfg cfg gen j) true (map ser pu)
                                 (fst (apply_updated (icfg cfg gen j) true recs1 (removes E hlt (removes E comp (d_runs sj))))))).
     { rewrite <- apply_updated_app, <- Hupd, E3. reflexivity. }
     set (R0 := removes E hlt (removes E comp (d_runs sj))) in *.
-    pose proof Hinvi as [Hwfi [Hkeysi [Hnodupi _]]].
     (* which runs finish on this event, in terms of the records *)
     assert (HA : forall ph pat r, In r (bucket ph pat (d_runs si)) ->
                  existsb (rmatch ph pat (r_id r)) comp || existsb (rmatch ph pat (r_id r)) hlt = fin e r).
@@ -320,8 +438,7 @@ Section Sync.
       rewrite Hff. apply filter_ext_in. intros r Hr. rewrite <- (HA ph pat r Hr).
       destruct (existsb (rmatch ph pat (r_id r)) comp), (existsb (rmatch ph pat (r_id r)) hlt); reflexivity. }
     assert (HinvR0 : Inv E (icfg cfg gen j) R0) by (unfold R0; now repeat apply Inv_removes).
-    assert (K1 : Forall (known_ns E (icfg cfg gen j)) recs1) by (rewrite Hupd in Ku; now apply Forall_app in Ku).
-    assert (K2 : Forall (known_ns E (icfg cfg gen j)) (map ser pu)) by (rewrite Hupd in Ku; now apply Forall_app in Ku).
+    assert (K1 : Forall (known (icfg cfg gen j)) recs1) by (rewrite Hupd in Ku; now apply Forall_app in Ku).
     assert (Nd : NoDup (ids_of recs1)).
     { unfold ids_of, recs1. rewrite map_map. simpl. unfold ks. now apply nodup_sel_ids. }
     assert (Hfe : forall {A} (f : A -> bool) (l : list A) x, In x l -> f x = true -> find f l <> None).
@@ -386,7 +503,7 @@ Section Sync.
     forall si si' n, nth_error ss i = Some si -> local_step (icfg cfg gen i) si e = Ok (si', n) ->
       NoDup (map (@r_id E) (rt_all (d_runs si))) /\
       (forall k r, (d_next si <= k)%nat -> In r (rt_all (d_runs si)) -> r_id r <> gen i k) /\
-      Forall (known_ns E cfg) (n_comp n) /\ Forall (known_ns E cfg) (n_halt n) /\ Forall (known_ns E cfg) (n_upd n) /\
+      Forall (known cfg) (n_comp n) /\ Forall (known cfg) (n_halt n) /\ Forall (known cfg) (n_upd n) /\
       (forall j sj, j <> i -> nth_error ss j = Some sj -> filter_msg (icfg cfg gen j) sj n = n).
 
   Lemma cstep_all_inv ss ss' i (e : E) n :
